@@ -865,6 +865,11 @@ func (c *syntaxLoader) convertPart(p ast.RhsPart, nonterm *syntax.Nonterm, under
 			args.Names = make(map[string][]int)
 			for k, v := range rhs.names {
 				if !c.aliasOptSuffix && len(k) > len(c.optSuffix) && strings.HasSuffix(k, c.optSuffix) {
+					if _, exact := rhs.names[strings.TrimSuffix(k, c.optSuffix)]; exact {
+						// The rule also references the symbol without the suffix: that exact name wins
+						// (otherwise the map iteration order would decide what $name means).
+						continue
+					}
 					k = strings.TrimSuffix(k, c.optSuffix)
 				}
 				args.Names[k] = v
